@@ -49,7 +49,8 @@ ASSUME = ["the parser/compiler issue diagnostics only through reports.emit_repor
           "argparse delivers -Wxxx as the string xxx"]
 TRUSTED = ["tools/gens/gen_reports.py", "Spec/ReportSpec.v (error severity; 'the last -W mention decides')"]
 
-SCRATCH = "/tmp/c07c18"
+SCRATCH_ROOT = "/tmp/c07c18"
+SCRATCH = os.path.join(SCRATCH_ROOT, "p%d" % os.getpid())      # per process: concurrent checks must not share directories
 PY = "/venv/bin/python"
 
 # ---------------------------------------------------------------------------------------------
@@ -348,11 +349,15 @@ def run_cli(d, files, adir, decoys, argv, timeout=60):
     env["PYTHONPATH"] = C.REPO
     env["PYTHONDONTWRITEBYTECODE"] = "1"
     env.setdefault("PYTHONHASHSEED", "0")
-    try:
-        p = subprocess.run([PY, "-m", "pdpy11"] + argv, cwd=d, env=env, stdout=subprocess.PIPE, stderr=subprocess.PIPE, timeout=timeout)
-        status, out, err = p.returncode, p.stdout.decode("utf-8", "replace"), p.stderr.decode("utf-8", "replace")
-    except subprocess.TimeoutExpired:
-        status, out, err = -9, "", "TIMEOUT"
+    status, out, err = -9, "", "TIMEOUT"
+    for attempt_timeout in (timeout, 4 * timeout):       # a loaded machine must not look like a hang: retry once, longer
+        try:
+            p = subprocess.run([PY, "-m", "pdpy11"] + argv, cwd=d, env=env, stdout=subprocess.PIPE, stderr=subprocess.PIPE, timeout=attempt_timeout)
+            status, out, err = p.returncode, p.stdout.decode("utf-8", "replace"), p.stderr.decode("utf-8", "replace")
+            break
+        except subprocess.TimeoutExpired:
+            shutil.rmtree(d, ignore_errors=True)
+            make_dir(d, files, adir, decoys)
     after = snapshot(d)
     changed = sorted(k for k in after if k not in before or before[k] != after[k])
     removed = sorted(k for k in before if k not in after)
@@ -374,7 +379,7 @@ def inprocess_full(files, adir, key):
     shutil.rmtree(d, ignore_errors=True)
     make_dir(d, files, adir, [])
     try:
-        r = impl.assemble([(os.path.join(d, n), t) for n, t in files.items() if n == "a.mac"], fs=None)
+        r = impl.assemble([(os.path.join(d, n), files[n]) for n in sorted(files)], fs=None)
     finally:
         shutil.rmtree(d, ignore_errors=True)
     full = [(dg[0], dg[1], len(dg[2])) for dg in r["diags"]]
@@ -412,10 +417,20 @@ def make_group(rng, gi, wnames, tier):
     nw = rng.choice([0, 0, 1, 2])
     base = gen_base(rng)
     lines, kinds, wids, adir = plant(rng, base, nf, nw, allow_crash=(rng.random() < 0.05))
-    sel = rng.choice(SELECTORS)
+    if gi < len(FAULTS):
+        # the first groups walk through the catalogue so that every kind is planted in every run
+        f = FAULTS[gi]
+        pos = rng.randrange(len(lines) + 1)
+        lines[pos:pos] = [x.replace("{u}", "9") for x in f[4]]
+        kinds.append(f[0])
+        adir = adir or f[0] == "directory-include"
+    sel = SELECTORS[gi % len(SELECTORS)] if gi < 2 * len(SELECTORS) else rng.choice(SELECTORS)
     lst = rng.random() < 0.4
     lines, sel_argv, expected = apply_selector(rng, lines, sel, lst)
     files = {"a.mac": "\n".join(lines) + "\n"}
+    if rng.random() < 0.25:
+        # a second source file linked after the first one (valid code, its own labels)
+        files["b.mac"] = "\n".join(gen_base(rng, "b")) + "\n"
     decoys = [e for e in expected if rng.random() < 0.5] if rng.random() < 0.6 else []
     nvar = 4 if tier == "quick" else 6
     variants = [("bare", []), ("graphical", [])]
@@ -426,7 +441,7 @@ def make_group(rng, gi, wnames, tier):
 
 
 def argv_of(g, fmt, ws):
-    return ["--report-format", fmt] + w_argv(ws) + g["sel_argv"] + ["a.mac"]
+    return ["--report-format", fmt] + w_argv(ws) + g["sel_argv"] + sorted(g["files"])
 
 
 def run_group(g):
@@ -487,7 +502,7 @@ def cli_part(rep, rng, tier, ngroups, use_coq=True):
             inp = {"files": g["files"], "adir": g["adir"], "decoys": g["decoys"], "argv": argv_of(g, fmt, ws), "expected": g["expected"],
                    "reference_argv": argv_of(g, *g["variants"][0]), "faults": g["kinds"], "warnings": g["wids"]}
             if run["timeout"]:
-                rep.disagree("command-line run timed out (60 s)", inp)
+                rep.disagree("command-line run timed out (60 s and again 240 s)", inp)
                 continue
             probs = python_oracle(run, g["expected"], same)
             if not use_coq:
@@ -717,10 +732,9 @@ def catalogue_selftest(rep):
 
 
 def cleanup():
-    shutil.rmtree(os.path.join(SCRATCH, "run"), ignore_errors=True)
-    shutil.rmtree(os.path.join(SCRATCH, "ref"), ignore_errors=True)
+    shutil.rmtree(SCRATCH, ignore_errors=True)
     try:
-        os.rmdir(SCRATCH)
+        os.rmdir(SCRATCH_ROOT)
     except OSError:
         pass
 
@@ -731,7 +745,7 @@ def explore(rep, br, tier, seed):
         catalogue_selftest(rep)
         block_part(rep, rng, 400 if tier == "quick" else 4000)
         wargs_part(rep, rng, 150 if tier == "quick" else 1500)
-        cli_part(rep, rng, tier, 36 if tier == "quick" else 330)
+        cli_part(rep, rng, tier, 90 if tier == "quick" else 400)
     finally:
         cleanup()
 
